@@ -159,12 +159,6 @@ def readBool (s : CR) (bs : Bytes) : Out (Bool × CR × Bytes) :=
       if b = 1 then .ok (true, s, r) else if b = 2 then .ok (false, s, r) else .err .invalid
     | .err k => .err k | .panic m => .panic m | .fuel => .fuel
 
-/-- `read_varint::<u32>()? as i32 … as usize`. -/
-def readSize (bs : Bytes) : Out (Nat × Bytes) :=
-  match readVarU 4 bs with
-  | .ok (n, r) => .ok (Binary.asUsize (toS 4 n), r)
-  | .err k => .err k | .panic m => .panic m | .fuel => .fuel
-
 /-- `read_bytes` & co: u32 varint length (`as usize`, no sign), bounds check, `split_to`. -/
 def readBytes (bs : Bytes) : Out (Bytes × Bytes) :=
   match readVarU 4 bs with
@@ -177,22 +171,29 @@ def readCollBegin (bs : Bytes) : Out ((TType × Nat) × Bytes) :=
     match ttypeOfCompact (h % 16) with
     | none => .err .invalid
     | some et =>
-      if h / 16 ≠ 15 then .ok ((et, h / 16), r)
-      else match readSize r with
-        | .ok (n, r) => .ok ((et, n), r)
+      if h / 16 ≠ 15 then match Binary.checkSize (h / 16 : Nat) r with
+        | .ok n => .ok ((et, n), r)
+        | .err k => .err k | .panic m => .panic m | .fuel => .fuel
+      else match readVarU 4 r with
+        | .ok (n, r) => match Binary.checkSize (toS 4 n) r with      -- `read_varint::<u32>()? as i32`
+          | .ok n => .ok ((et, n), r)
+          | .err k => .err k | .panic m => .panic m | .fuel => .fuel
         | .err k => .err k | .panic m => .panic m | .fuel => .fuel
   | .err k => .err k | .panic m => .panic m | .fuel => .fuel
 
 def readMapBegin (bs : Bytes) : Out ((TType × TType × Nat) × Bytes) :=
   match readVarU 4 bs with
   | .ok (n, r) =>
-    if toS 4 n = 0 then .ok ((.stop, .stop, 0), r)
-    else match readByte r with
-      | .ok (h, r) =>
-        match ttypeOfCompact (h / 16), ttypeOfCompact (h % 16) with
-        | some kt, some vt => .ok ((kt, vt, Binary.asUsize (toS 4 n)), r)
-        | _, _ => .err .invalid
-      | .err k => .err k | .panic m => .panic m | .fuel => .fuel
+    match Binary.checkSize (toS 4 n) r with
+    | .ok cnt =>
+      if cnt = 0 then .ok ((.stop, .stop, 0), r)
+      else match readByte r with
+        | .ok (h, r) =>
+          match ttypeOfCompact (h / 16), ttypeOfCompact (h % 16) with
+          | some kt, some vt => .ok ((kt, vt, cnt), r)
+          | _, _ => .err .invalid
+        | .err k => .err k | .panic m => .panic m | .fuel => .fuel
+    | .err k => .err k | .panic m => .panic m | .fuel => .fuel
   | .err k => .err k | .panic m => .panic m | .fuel => .fuel
 
 def readStructBegin (s : CR) : CR := { s with stack := s.last :: s.stack, last := 0 }
